@@ -294,6 +294,20 @@ def b_property(ex, st, pos, kw, node, star, dstar):
     o = st.alloc('property'); st.wr(o, 'fget', pos[0] if pos else NONE); return val(st, o)
 
 
+def l_random_module(ex, st, pos, kw, node, star, dstar):
+    """random.random(): a draw from the PROCESS-WIDE generator (shared with, and re-seedable by, any other code) -- not from an object's own
+    seeded generator: recorded apart from the draws of Random instances"""
+    used('A8 random.random() draws from the process-wide generator, not from a seeded Random instance')
+    d = fresh('global_draw', z3.RealSort()); st.assume(z3.And(d >= 0, d < 1)); st.g.setdefault('global_draws', []).append(d)
+    return val(st, Val.r(d))
+
+
+def b_hash(ex, st, pos, kw, node, star, dstar):
+    """hash(x): for str / bytes (and anything containing them) it depends on PYTHONHASHSEED -- another process, another value: an unconstrained int"""
+    used('E: hash() of strings depends on the hash seed of the process: unconstrained integer')
+    return val(st, I(fresh('hash_value', z3.IntSort())))
+
+
 def l_utcnow(ex, st, pos, kw, node, star, dstar):
     o = st.alloc('datetime'); st.wr(o, 'instant', I(fresh('now', z3.IntSort()))); st.g['utcnow_reads'] = st.g.get('utcnow_reads', []) + [o]; return val(st, o)
 
@@ -493,7 +507,7 @@ def install(ex):
     L = ex.lib
     L.update({'operator.eq': op_model(ast.Eq), 'operator.ne': op_model(ast.NotEq), 'operator.lt': op_model(ast.Lt), 'operator.le': op_model(ast.LtE),
               'operator.gt': op_model(ast.Gt), 'operator.ge': op_model(ast.GtE)})
-    L.update({'builtins.property': b_property, 'builtins.len': b_len, 'builtins.isinstance': b_isinstance, 'builtins.callable': b_callable, 'builtins.str': b_str,
+    L.update({'random.random': l_random_module, 'builtins.hash': b_hash, 'builtins.property': b_property, 'builtins.len': b_len, 'builtins.isinstance': b_isinstance, 'builtins.callable': b_callable, 'builtins.str': b_str,
               'builtins.repr': b_repr, 'builtins.bool': b_bool, 'builtins.list': b_list, 'builtins.tuple': b_list, 'builtins.dict': b_dict,
               'builtins.type': b_type, 'builtins.iter': b_iter, 'builtins.hasattr': b_hasattr, 'builtins.enumerate': b_enumerate,
               'functools.reduce': l_reduce, 'random.Random': l_random_new, 'builtins.round': b_round, 'itertools.islice': l_islice, 'builtins.int': b_int, 'builtins.float': b_float, 'builtins.bytes': b_bytes, 'builtins.set': b_set, 'builtins.frozenset': b_set,
